@@ -31,6 +31,11 @@ def mutators(db):
         # writes the object
         alias = {n.targets[0].id for n in walk_no_nested(fi.node) if isinstance(n, ast.Assign) and len(n.targets) == 1 and isinstance(n.targets[0], ast.Name)
                  and isinstance(n.value, ast.Attribute) and isinstance(n.value.value, ast.Name) and n.value.value.id == 'self'}
+        # ... and loop variables that run over such things (for grid in (self.x, self.y): grid -= ...)
+        for n in walk_no_nested(fi.node):
+            if isinstance(n, ast.For) and isinstance(n.target, ast.Name) and isinstance(n.iter, (ast.Tuple, ast.List)) \
+                    and any(isinstance(e, ast.Attribute) and isinstance(e.value, ast.Name) and e.value.id == 'self' for e in n.iter.elts):
+                alias.add(n.target.id)
         for n in walk_no_nested(fi.node):
             if isinstance(n, (ast.Assign, ast.AugAssign)):
                 tgts = n.targets if isinstance(n, ast.Assign) else [n.target]
@@ -234,9 +239,16 @@ def stats_rules(run, db):
 
     reductions = []
 
+    def all_finite_path():
+        # on a path taken because `<mask>.all()` / `np.all(<mask>)` answered True every sample is finite: a reduction over the whole
+        # array is the reduction over the finite samples there (a fast path for data without invalid samples)
+        return any(t is True and ('.all()' in c or 'np.all(' in c) and 'not ' not in c for c, t in it.conds)
+
     def method(v, name, args, kwargs, node):
+        if isinstance(v, Arr) and getattr(v, 'is_mask', False) and name in ('all', 'any') and not args and not kwargs:
+            return Unknown('whether %s sample is finite' % ('every' if name == 'all' else 'any'))        # both answers are explored
         if isinstance(v, Arr) and name in ('mean', 'max', 'min', 'sum', 'std'):
-            reductions.append((name, isinstance(v, Finite), node))
+            reductions.append((name, isinstance(v, Finite) or all_finite_path(), node))
             if name == 'sum':
                 return orig_ext('numpy.sum', [Arr(v.shape, v.data)], {}, node)
             if name == 'mean':
@@ -247,7 +259,7 @@ def stats_rules(run, db):
 
     def getattr_(v, name, node, orig=dom.getattr):
         if isinstance(v, Arr) and name == 'size':
-            reductions.append(('size', isinstance(v, Finite), node))
+            reductions.append(('size', isinstance(v, Finite) or all_finite_path(), node))
             return Const(len(v.data))
         return orig(v, name, node)
     dom.subscript, dom.call_ext, dom.method, dom.getattr = subscript, call_ext, method, getattr_
@@ -272,12 +284,24 @@ def stats_rules(run, db):
         fi = db.func('prysm.util.' + name)
         del reductions[:]
         res = returns(it.run(fi, kwargs=lambda: {'array': Arr((n,), [dom.sym('a%d' % i) for i in range(n)])}), fi)
-        got = dom.rat(res[0].value)
-        run.check(got is not None and got == want, 'C12.stats', fi.qual, 'formula', '%s equals its definition on the finite samples (generic 3-sample array)' % name,
-                  '%s = %s, expected %s' % (name, got.key() if got is not None else res[0].value, want.key()), fi.loc())
+        for p_ in res:
+            got = dom.rat(p_.value)
+            run.check(got is not None and got == want, 'C12.stats', fi.qual, 'formula', '%s equals its definition on the finite samples (generic 3-sample array)' % name,
+                      '%s = %s, expected %s' % (name, got.key() if got is not None else p_.value, want.key()), fi.loc())
         raw = [r for r in reductions if not r[1]]
         run.check(bool(reductions) and not raw, 'C12.stats', fi.qual, 'finite mask', 'every reduction in %s runs over array[isfinite(array)]' % name,
                   '%s reduces over samples that were not selected by the finite mask: %s' % (name, [r[0] for r in raw]), fi.loc(raw[0][2]) if raw else fi.loc())
+    # reading a statistic leaves the samples alone: no in-place write reaches the argument (directly, through a view such as
+    # ravel(), through a helper that hands its argument back, or as an out= buffer)
+    from .purity import input_mutations
+    for name in refs:
+        fi = db.func('prysm.util.' + name)
+        muts = input_mutations(fi)
+        for st, nm_ in muts:
+            run.finding('C12.stats', fi.qual, 'purity: ' + norm_stmt(st)[:60],
+                        '%s writes in place through `%s`, which may be (a view of) the caller\'s array: reading the statistic changes the data, so a second read differs from the first' % (name, nm_), fi.loc(st))
+        if not muts:
+            run.ok('C12.stats', fi.qual, '%s does not write through its argument' % name)
     # delegation and piston: decided on values, with the util statistics summarised as functions of their argument
     from ..core.interp import Obj as _Obj
     cii = db.cls(I)
